@@ -24,11 +24,12 @@
       [decl_names_ok] / [idents_ok] / no malformed tags are exactly what [excl_decl_clash] = false
       grants, they are not derived).  It is not a theorem about the Go type checker; the real
       go/types run is observed by the correspondence check on every case.
-      OPEN (stated, evaluated on every case of every run, NOT proved): a condition on the names of
-      schema and document alone suffices for the second exclusion,
-        forall S d, decl_safe S d = true -> excl_decl_clash S d = false
-      ([decl_safe] in ClientGenSpec.v); missing: an invariant on the generator's struct counter
-      (sel<T1><n1> = sel<T2><n2> only if a composite type name ends in a digit).
+      The second exclusion is implied by a condition on the NAMES of schema and document alone
+      ([decl_safe], ClientGenSpec.v: enum types, enum constants, <Op>Data, <F>Fragment pairwise
+      distinct usable identifiers that do not begin with "sel" and are not "json"; no composite
+      type name ends in a digit; type-condition and fragment names do not begin with "__"):
+      [C20_decl_safe_sufficient].  The main statements below carry [decl_safe] as hypothesis, which
+      can be checked without running the generator.
     - "decoding succeeds with every selected leaf": for every response tree [w] that conforms to
       the operation (any concrete object types, nulls at nullable positions, any list lengths),
       [decode_op] of the JSON of [w] returns a value, for all sufficiently large fuel, whose leaves
@@ -36,33 +37,39 @@
 From Coq Require Import List NArith Bool String.
 Open Scope string_scope.
 From ApiFu Require Import Base.Sexp Gen.GoTypes Gen.ClientGenModel Gen.DecodeModel Gen.ClientGenSpec
-     Gen.ClientGenMain Gen.ClientGenWitness Gen.ClientGenClauses.
+     Gen.ClientGenMain Gen.ClientGenWitness Gen.ClientGenDeclSafe Gen.ClientGenClauses.
 Import ListNotations.
 
 (** the generator accepts every operation of the envelope and its output is well formed *)
 Theorem C20_gen_wf_partial : forall S d,
-  env S d = true -> excl_member_clash S d = false -> excl_decl_clash S d = false ->
+  env S d = true -> excl_member_clash S d = false -> decl_safe S d = true ->
   exists p, generate no_quirks S (doc_valid S d) d = GOk p /\ wf_program p = true.
-Proof. exact gen_accepts_wf. Qed.
+Proof. exact gen_accepts_wf_safe. Qed.
+
+(** the names-only condition excludes the known finding decl-name-clash (struct-counter invariant:
+    sel<T1><n1> = sel<T2><n2> only if n1 = n2, when no composite type name ends in a digit) *)
+Theorem C20_decl_safe_sufficient : forall S d,
+  schema_ok S = true -> decl_safe S d = true -> excl_decl_clash S d = false.
+Proof. exact decl_safe_excl. Qed.
 
 (** the same, clause by clause (definitions and the Go rule each clause stands for: ClientGenClauses.v):
     distinct struct members and well-targeted UnmarshalJSON statements, declared references,
     forwarders only to types with the method, identifiers *)
 Theorem C20_gen_wf_clauses_partial : forall S d,
-  env S d = true -> excl_member_clash S d = false -> excl_decl_clash S d = false ->
+  env S d = true -> excl_member_clash S d = false -> decl_safe S d = true ->
   exists p, generate no_quirks S (doc_valid S d) d = GOk p /\
             cl_struct_members p /\ cl_references p /\ cl_method_forwarders p /\ cl_identifiers p.
-Proof. exact gen_wf_clauses. Qed.
+Proof. exact gen_wf_clauses_safe. Qed.
 
 (** decoding any response shaped by a named operation yields exactly the selected leaves *)
 Theorem C20_gen_decodes : forall S d,
-  env S d = true -> excl_member_clash S d = false -> excl_decl_clash S d = false ->
+  env S d = true -> excl_member_clash S d = false -> decl_safe S d = true ->
   forall p o opname w,
     generate no_quirks S (doc_valid S d) d = GOk p ->
     In o (d_ops d) -> op_name o = Some opname -> conforms S o w = true ->
     exists n v, (forall fuel, (n <= fuel)%nat -> decode_op p fuel opname (json_of w) = DOk v) /\
                 (forall pl, In pl (leaves v) <-> In pl (expected S o w)).
-Proof. exact gen_decodes. Qed.
+Proof. exact gen_decodes_safe. Qed.
 
 (** operations that fail validation are rejected and nothing is generated (whatever the flags) *)
 Theorem C20_gen_invalid_no_output : forall Q S d,
@@ -114,6 +121,7 @@ Theorem C20_refuted_decl_name_clash :
 Proof. exact refuted_decl_name_clash. Qed.
 
 Print Assumptions C20_gen_wf_partial.
+Print Assumptions C20_decl_safe_sufficient.
 Print Assumptions C20_gen_wf_clauses_partial.
 Print Assumptions C20_gen_decodes.
 Print Assumptions C20_gen_invalid_no_output.
